@@ -62,7 +62,13 @@ def rules(t):
         f = c.fn
         ev = {s.bb for s in t.aggrs("server::ServerResult", "ClientDisconnected", f)}
         from rules.C17 import all_paths_pass
-        if not all_paths_pass(f, c.bb, ev - {c.bb}) and c.bb not in ev: r.bad(f"{f.path}|clear-without-event", c, "slot cleared on a path that does not report ClientDisconnected")
+        if not all_paths_pass(f, c.bb, ev - {c.bb}) and c.bb not in ev:
+            # `let Some(client) = self.clients[slot].take() else { return None }`: on the None edge of the take nothing was cleared
+            e_ = t.result_edges(f, c) if c.node["k"] == "call" else None
+            if e_ and e_[0] != e_[1]:
+                tg_ = {(b_, 0) for b_ in ev}
+                if must_pass(f, (e_[0][1], -1), tg_)[0] or e_[0][1] in ev: continue
+            r.bad(f"{f.path}|clear-without-event", c, "slot cleared on a path that does not report ClientDisconnected")
     out.append(r)
     r = RuleResult("C10.c2", "ClientConnected is reported together with the slot fill", floor=1)
     for s in t.aggrs("server::ServerResult", "ClientConnected", p):
